@@ -1,4 +1,5 @@
 import EmmyVerif.Model.IndexDb
+import EmmyVerif.Model.IndexSym
 import EmmyVerif.Drv.Util
 /-! Driver ops of the `Index` family (protocol family `index`).
 
@@ -166,8 +167,106 @@ def dbRun : _root_.Index.Db.Db → List String → List String → Option (List 
     | some (d', none) => dbRun d' ts acc
     | some (d', some out) => dbRun d' ts (out :: acc)
 
+/-! ### `index.sym <op>…` — type / operator / metatable / member indexes
+ops: `td:f:t:pos` add_type_decl · `ts:f:t:v` add_super_type · `tg:t:v` add_generic_params · `tb:f:pos:v` bind_type ·
+`tn:f:v` add_file_namespace · `tu:f:v` add_file_using_namespace · `op:f:pos:owner:op` add_operator · `mt:f:k:v`
+metatable add · `ma:<owner>:f:id:key:feat` add_member · `ms:<owner>:f:id` set_member_owner (file = f) ·
+`mo:<owner>:f:id` add_member_to_owner · `r:f` remove · `x` clear · `c` sizes · `g` lookups.
+`<owner>` = `t<n>` | `e<f>_<r>` | `g<n>` | `u` (unknown). -/
+
+open _root_.Index.Sym in
+def parseOwner (s : String) : Option MOwner :=
+  match s.toList with
+  | ['u'] => some .unknown
+  | 't' :: r => (String.ofList r).toNat?.map .type
+  | 'g' :: r => (String.ofList r).toNat?.map .glob
+  | 'e' :: r =>
+    match splitTok '_' (String.ofList r) with
+    | [a, b] => do pure (.elem (← a.toNat?) (← b.toNat?))
+    | _ => none
+  | _ => none
+
+open _root_.Index.Sym in
+def showOwner : MOwner → String
+  | .unknown => "u"
+  | .type t => s!"t{t}"
+  | .elem f r => s!"e{f}_{r}"
+  | .glob g => s!"g{g}"
+
+def showPairs (xs : List (Nat × Nat)) : String := Drv.joinWith "." (xs.map fun x => s!"{x.1}:{x.2}")
+
+open _root_.Index.Sym in
+def symSizes (s : S) : String :=
+  let cnt {α β : Type} (l : List (α × List β)) : Nat := (l.map (·.2.length)).sum
+  let nums : List Nat := [
+    s.fileNamespace.length, s.fileUsing.length, cnt s.fileUsing, s.fileTypes.length, cnt s.fileTypes,
+    s.decls.length, cnt s.decls, s.generics.length, s.supers.length, cnt s.supers,
+    s.typeCache.length, s.inFiledTypeOwner.length, cnt s.inFiledTypeOwner, s.globalNames.length,
+    s.operators.length, s.typeOperators.length, (s.typeOperators.map fun e => (e.2.map (·.2.length)).sum).sum, s.inFiledOperators.length, cnt s.inFiledOperators,
+    s.metatables.length,
+    s.members.length, s.inFiled.length, cnt s.inFiled, s.ownerMembers.length, cnt s.ownerMembers, s.currentOwner.length]
+  Drv.joinWith "," (nums.map toString)
+
+open _root_.Index.Sym in
+def symLookups (s : S) : String :=
+  let files := List.range 3
+  let tids := List.range 3
+  let tItems := tids.map fun t =>
+    s!"T{t}=" ++ showPairs (agetL s.decls t) ++ "/" ++ showNats ((agetL s.supers t).map (·.2)) ++ "/" ++
+      (if (aget s.generics t).isSome then "1" else "0") ++ "/" ++
+      (if ((aget s.globalNames t).bind fun id => aget s.decls id).isSome then "1" else "0")
+  let fItems := files.map fun f =>
+    s!"F{f}=" ++ Drv.showOptNat (aget s.fileNamespace f) ++ "/" ++ showNats (agetL s.fileUsing f) ++ "/" ++
+      Drv.joinWith "." ((List.range 3).map fun p => Drv.showOptNat (aget s.typeCache (f, p)))
+  let oItems := tids.flatMap fun t => [0, 1].map fun op =>
+    s!"O{t}.{op}=" ++ showPairs (agetL (agetL s.typeOperators t) op)
+  let mtItems := files.flatMap fun f => (List.range 3).map fun k =>
+    s!"M{f}.{k}=" ++ match aget s.metatables (f, k) with | none => "none" | some v => s!"{v.1}:{v.2}"
+  let owners : List MOwner := (tids.map .type) ++ (files.map fun f => .elem f 0) ++ ((List.range 2).map .glob)
+  let mItems := owners.flatMap fun o => (List.range 3).map fun k =>
+    s!"W{showOwner o}.{k}=" ++ match aget (agetL s.ownerMembers o) k with
+      | none => "none"
+      | some (.one id) => s!"o{id.1}:{id.2}"
+      | some (.many ids) => "m" ++ showPairs ids
+  let cItems := files.flatMap fun f => (List.range 4).map fun i =>
+    s!"C{f}.{i}=" ++ (if (aget s.members (f, i)).isSome then "1" else "0") ++ "/" ++
+      match aget s.currentOwner (f, i) with | none => "none" | some o => showOwner o
+  Drv.joinWith ";" (tItems ++ fItems ++ oItems ++ mtItems ++ mItems ++ cItems)
+
+open _root_.Index.Sym in
+def symOp (s : S) (tok : String) : Option (S × Option String) :=
+  match splitTok ':' tok with
+  | ["td", f, t, p] => do pure (apply s (.tdecl (← f.toNat?) (← t.toNat?) (← p.toNat?)), none)
+  | ["ts", f, t, v] => do pure (apply s (.tsuper (← f.toNat?) (← t.toNat?) (← v.toNat?)), none)
+  | ["tg", t, v] => do pure (apply s (.tgeneric (← t.toNat?) (← v.toNat?)), none)
+  | ["tb", f, p, v] => do pure (apply s (.tbind (← f.toNat?) (← p.toNat?) (← v.toNat?)), none)
+  | ["tn", f, v] => do pure (apply s (.tns (← f.toNat?) (← v.toNat?)), none)
+  | ["tu", f, v] => do pure (apply s (.tusing (← f.toNat?) (← v.toNat?)), none)
+  | ["op", f, p, o, m] => do pure (apply s (.oper (← f.toNat?) (← p.toNat?) (← o.toNat?) (← m.toNat?)), none)
+  | ["mt", f, k, v] => do pure (apply s (.mtable (← f.toNat?) (← k.toNat?) (← v.toNat?)), none)
+  | ["ma", o, f, i, k, ft] => do
+    pure (apply s (.madd (← parseOwner o) { id := (← f.toNat?, ← i.toNat?), key := ← k.toNat?, feat := ← ft.toNat? }), none)
+  | ["ms", o, f, i] => do pure (apply s (.mset (← parseOwner o) (← f.toNat?) (← f.toNat?, ← i.toNat?)), none)
+  | ["mo", o, f, i] => do pure (apply s (.mto (← parseOwner o) (← f.toNat?, ← i.toNat?)), none)
+  | ["r", f] => do pure (Sym.remove s (← f.toNat?), none)
+  | ["x"] => pure (Sym.clear s, none)
+  | ["c"] => pure (s, some ("c=" ++ symSizes s))
+  | ["g"] => pure (s, some ("g=" ++ symLookups s))
+  | _ => none
+
+def symRun : _root_.Index.Sym.S → List String → List String → Option (List String)
+  | _, [], acc => some acc.reverse
+  | s, t :: ts, acc =>
+    match symOp s t with
+    | none => none
+    | some (s', none) => symRun s' ts acc
+    | some (s', some out) => symRun s' ts (out :: acc)
+
 def handle (op : String) (args : List String) : Option String :=
   match op, args with
+  | "sym", ops => do
+    let outs ← symRun _root_.Index.Sym.S.new ops []
+    pure ("ok " ++ Drv.joinWith " " outs)
   | "db", ops => do
     let outs ← dbRun _root_.Index.Db.Db.new ops []
     pure ("ok " ++ Drv.joinWith " " outs)
